@@ -961,6 +961,108 @@ theorem dedup_only_repeats (ops : List Op) (m : MsgId)
 -- the two messages that shared a key before the repair (chain "ab" + sender "c" / chain "a" + sender "bc")
 example : msgKey ⟨3, ['a', 'b'], ['c'], ['L'], 7⟩ ≠ msgKey ⟨3, ['a'], ['b', 'c'], ['L'], 7⟩ := by decide
 
+/-! ### a Register / UnRegister in flight with a Dispatch (oracle of op `dmut`)
+
+In the model a request is atomic, so a Dispatch with a mutation in flight is one of the two orders.  These statements say
+that the two orders differ ONLY in the subscriber the mutation names: every other subscriber is a target of the message
+the same number of times (0 or 1) in both, the unregistered one is no target afterwards, the fresh one at most once. -/
+
+private theorem count_filter_ne (p : Sub → Bool) (v s : Sub) (hne : s ≠ v) (l : List Sub) :
+    ((l.filter (fun x => decide (x ≠ v))).filter p).count s = (l.filter p).count s := by
+  unfold List.count
+  simp only [List.countP_filter]
+  apply List.countP_congr
+  intro x _
+  by_cases hx : x = v
+  · subst hx
+    have : ¬ x = s := fun h => hne h.symm
+    simp [this]
+  · simp [hx]
+
+private theorem count_filter_snoc (p : Sub → Bool) (f s : Sub) (hne : s ≠ f) (l : List Sub) :
+    ((l ++ [f]).filter p).count s = (l.filter p).count s := by
+  rw [List.filter_append, List.count_append]
+  have : ([f].filter p).count s = 0 := by
+    apply List.count_eq_zero.mpr
+    intro hm
+    have := (List.mem_filter.mp hm).1
+    simp at this
+    exact hne this
+  omega
+
+private theorem unregister_subs (st : State) (v : Sub) :
+    (unregister st v).1.subs = st.subs ∨ (unregister st v).1.subs = st.subs.filter (fun x => decide (x ≠ v)) := by
+  unfold unregister
+  split
+  · exact Or.inl rfl
+  · split
+    · exact Or.inl rfl
+    · split
+      · exact Or.inl rfl
+      · exact Or.inr rfl
+
+private theorem register_subs (st : State) (f : Sub) :
+    (register st f).1.subs = st.subs ∨ (register st f).1.subs = st.subs ++ [f] := by
+  unfold register
+  split
+  · exact Or.inl rfl
+  · simp only
+    split
+    · exact Or.inl rfl
+    · exact Or.inr rfl
+
+/-- an UnRegister of `v` changes, for any message, the target count of no other subscriber -/
+theorem targets_unregister_other (st : State) (v s : Sub) (m : MsgId) (hne : s ≠ v) :
+    (targets (unregister st v).1 m).count s = (targets st m).count s := by
+  unfold targets
+  rcases unregister_subs st v with h | h
+  · rw [h]
+  · rw [h]; exact count_filter_ne _ v s hne st.subs
+
+/-- a Register of `f` changes, for any message, the target count of no other subscriber -/
+theorem targets_register_other (st : State) (f s : Sub) (m : MsgId) (hne : s ≠ f) :
+    (targets (register st f).1 m).count s = (targets st m).count s := by
+  unfold targets
+  rcases register_subs st f with h | h
+  · rw [h]
+  · rw [h]; exact count_filter_snoc _ f s hne st.subs
+
+/-- after an UnRegister of `v` (whatever it answered, table invariant given) `v` is a target of no message …
+unless the UnRegister was refused for its type: then the table never held it -/
+theorem targets_unregistered_gone (st : State) (h : Inv st) (v : Sub) (m : MsgId) :
+    v ∉ targets (unregister st v).1 m := by
+  intro hv
+  have hsub : v ∈ (unregister st v).1.subs := (List.mem_filter.mp hv).1
+  unfold unregister at hsub
+  split at hsub
+  · rename_i ht; exact (h.2 v hsub).1 ht
+  · split at hsub
+    · rename_i ht; exact ht (h.2 v hsub).2
+    · split at hsub
+      · rename_i hn; exact hn hsub
+      · simp at hsub
+
+/-- no subscriber is a target of one message twice, in any reachable table -/
+theorem targets_nodup (st : State) (h : Inv st) (m : MsgId) : (targets st m).Nodup := h.1.filter _
+
+/-- **a Dispatch with an UnRegister of `v` and a Register of `f` in flight**: whichever of them the dispatch comes
+after, every subscriber other than `v` and `f` is handed the message exactly as often as with no mutation at all (once if
+it is registered and matches, never otherwise) -/
+theorem dispatch_mutation_in_flight (st : State) (v f s : Sub) (m : MsgId) (hv : s ≠ v) (hf : s ≠ f) :
+    (targets (unregister st v).1 m).count s = (targets st m).count s ∧
+    (targets (register st f).1 m).count s = (targets st m).count s ∧
+    (targets (register (unregister st v).1 f).1 m).count s = (targets st m).count s :=
+  ⟨targets_unregister_other st v s m hv, targets_register_other st f s m hf,
+    (targets_register_other _ f s m hf).trans (targets_unregister_other st v s m hv)⟩
+
+-- non-vacuity: four subscribers, the second unregistered, a fifth registered: the other three stay targets, once each
+example :
+    let sb (i : Nat) : Sub := ⟨i, 3, [], []⟩
+    let st := runOps Dispatch.init [.register (sb 0), .register (sb 1), .register (sb 2), .register (sb 3)]
+    let m : MsgId := ⟨3, ['x'], ['p'], ['L'], 1⟩
+    targets st m = [sb 0, sb 1, sb 2, sb 3] ∧
+    targets (register (unregister st (sb 1)).1 (sb 4)).1 m = [sb 0, sb 2, sb 3, sb 4] := by decide
+
 /-! ### lock discipline of the subscriber table -/
 
 /-- Every access to `d.mc` in a method of `dispatcher` (regenerated from dispatcher.go on every run)
